@@ -12,6 +12,7 @@ import (
 	"fmt"
 	"math/big"
 	"sort"
+	"sync"
 	"sync/atomic"
 	"time"
 
@@ -41,6 +42,13 @@ type nsCase struct {
 	// ValChange > 0: the application rotates the powers of the correct
 	// validators every ValChange heights (Byzantine powers and total unchanged).
 	ValChange int `json:"valchange,omitempty"`
+	// Doc selects what the external genesis document declares (0: exactly the
+	// chain's initial set, InitChain returns no validators; otherwise the
+	// application's InitChain response overrides the document with the real set):
+	// 1 same keys, other powers; 2 one validator missing; 3 one extra validator;
+	// 4 no validators at all. DocArg picks the missing validator / extra power.
+	Doc    int `json:"doc,omitempty"`
+	DocArg int `json:"docarg,omitempty"`
 	// Ops is the schedule.
 	Ops []nsOp `json:"ops"`
 }
@@ -112,13 +120,16 @@ type nsWorld struct {
 	hs  tmconsensustest.SimpleHashScheme
 	ss  tmconsensustest.SimpleSignatureScheme
 	gen tmconsensus.ValidatorSet
+	// doc is the validator set written in the external genesis document.
+	doc tmconsensus.ValidatorSet
 
+	valMu    sync.Mutex
 	valCache map[uint64]tmconsensus.ValidatorSet
 }
 
 func nsNewWorld(c nsCase) *nsWorld {
 	w := &nsWorld{c: c, nVals: len(c.Powers), valCache: map[uint64]tmconsensus.ValidatorSet{}}
-	w.signers = gcryptotest.DeterministicEd25519Signers(w.nVals)
+	w.signers = gcryptotest.DeterministicEd25519Signers(w.nVals + 1) // +1: the extra key of a superset document
 	w.nodeOf = make([]int, w.nVals)
 	for i := 0; i < w.nVals; i++ {
 		pk := w.signers[i].PubKey()
@@ -133,7 +144,53 @@ func nsNewWorld(c nsCase) *nsWorld {
 		}
 	}
 	w.gen = w.mkValSet(c.Powers)
+	w.doc = w.gen
+	docVals := append([]tmconsensus.Validator(nil), w.gen.Validators...)
+	switch c.Doc {
+	case 1:
+		for i := range docVals {
+			docVals[i].Power = c.Powers[i] + uint64(1+(i+c.DocArg)%3)
+		}
+	case 2:
+		k := c.DocArg % w.nVals
+		docVals = append(docVals[:k:k], docVals[k+1:]...)
+	case 3:
+		docVals = append(docVals, tmconsensus.Validator{PubKey: w.signers[w.nVals].PubKey(), Power: uint64(1 + c.DocArg%5)})
+	case 4:
+		docVals = nil
+	}
+	if c.Doc != 0 {
+		if len(docVals) == 0 {
+			w.doc = tmconsensus.ValidatorSet{}
+		} else {
+			vs, err := tmconsensus.NewValidatorSet(docVals, w.hs)
+			if err != nil {
+				panic(err)
+			}
+			w.doc = vs
+		}
+	}
 	return w
+}
+
+// sameSet compares a validator set a node uses with the prescribed one, field
+// by field (keys, powers) and by the declared hashes.
+func nsSameSet(got, want tmconsensus.ValidatorSet) string {
+	if len(got.Validators) != len(want.Validators) {
+		return fmt.Sprintf("%d validators instead of %d", len(got.Validators), len(want.Validators))
+	}
+	for i := range want.Validators {
+		if got.Validators[i].PubKey == nil || !bytes.Equal(got.Validators[i].PubKey.PubKeyBytes(), want.Validators[i].PubKey.PubKeyBytes()) {
+			return fmt.Sprintf("validator %d has another key", i)
+		}
+		if got.Validators[i].Power != want.Validators[i].Power {
+			return fmt.Sprintf("validator %d has power %d instead of %d", i, got.Validators[i].Power, want.Validators[i].Power)
+		}
+	}
+	if !bytes.Equal(got.PubKeyHash, want.PubKeyHash) || !bytes.Equal(got.VotePowerHash, want.VotePowerHash) {
+		return "declared hashes differ"
+	}
+	return ""
 }
 
 func (w *nsWorld) mkValSet(pows []uint64) tmconsensus.ValidatorSet {
@@ -164,6 +221,8 @@ func (w *nsWorld) powersFor(h uint64) []uint64 {
 }
 
 func (w *nsWorld) valsFor(h uint64) tmconsensus.ValidatorSet {
+	w.valMu.Lock() // also called from strategy / driver goroutines
+	defer w.valMu.Unlock()
 	if vs, ok := w.valCache[h]; ok {
 		return vs
 	}
